@@ -405,8 +405,9 @@ def mat(Aop, ishape, dtype="complex128", real_only=False):
             e = np.zeros(n, dtype=dtype)
             e[j] = 1j
             colsi.append(np.array(Aop(e.reshape(ishape))).ravel().copy())
-    M = np.stack(cols, axis=1) if cols else np.zeros((0, 0))
-    Mi = np.stack(colsi, axis=1) if colsi else None
+    # matrices are returned in complex128 so that norms of single-precision results cannot overflow
+    M = np.stack(cols, axis=1).astype(np.complex128) if cols else np.zeros((0, 0), np.complex128)
+    Mi = np.stack(colsi, axis=1).astype(np.complex128) if colsi else None
     return M, Mi
 
 
